@@ -48,6 +48,9 @@ FIXED = [
 
 FIXED += [
     ("C10", "c4b21e1", "format_size(size, '%.99999999999') (precision beyond i32) and '%.65536' (beyond the formatter's u16) panicked", ["format-precision-overflow", "format-precision-65536"]),
+    ("C10", "1be6361", "day('é日本') / `modified > 'é日本'`: non-ASCII date text panicked inside chrono-english (byte-offset slicing)", ["date-function-non-ascii"]),
+    ("C10", "8e50c74", "`modified > '99:99:99'`, 'apr 1 25:61', '10.70', day('12345.6'): an out-of-range time made chrono-english panic (found by the eval_total fuzz target)", ["english-date-time-out-of-range", "english-date-decimal"]),
+    ("C10", "9b6a0a7", "day('2020-0\u0661-01'): the date pattern matched non-ASCII digits and the integer parse of the capture was unwrapped (found by the eval_total fuzz target after 2e7 executions)", ["date-non-ascii-digit"]),
     ("C10", "69a0b27", "`name from './[a' depth 1 rx`: a malformed pattern in a regexp search root panicked (unwrap of Regex::new)", ["regexp-root-malformed"]),
 ]
 
